@@ -841,8 +841,9 @@ def r27_name_uniqueness(ctx, rule='R27'):
                 n_sites += 1
                 # option flags identify the case; local state variables (their names and encoding are private) do not
                 local_names = {x.id for x in ast.walk(f.node) if isinstance(x, ast.Name) and isinstance(x.ctx, ast.Store)}
-                key = fmt_atoms({a: v for a, v in val.items() if a[0] in ('EQ', 'MATCH') or
-                                 (a[0] == 'FLAG' and a[1] not in local_names)}) + ' -> ' + alpha_text(nd, f.node)
+                key = fmt_atoms({(('EQ',) if a[0] == 'EQ' else a): v for a, v in val.items()
+                                 if a[0] in ('EQ', 'MATCH') or (a[0] == 'FLAG' and a[1] not in local_names)}) + ' -> ' + \
+                    alpha_text(nd, f.node)
                 if key in seen:
                     continue
                 seen.add(key)
